@@ -26,6 +26,9 @@ def dispatch(pid, tier, replay):
     if pid == "C17":
         import static_checks
         return static_checks.c17(tier)
+    if pid == "C08":
+        import statutory_checks
+        return statutory_checks.c08(tier)
     raise common.MachineryError("no check for " + pid)
 
 
